@@ -147,6 +147,15 @@ package objects
 //@   ensures[frame] forall q *Queue :: !anc(sq, q) ==> q.allocatedResource == old(q.allocatedResource)
 //@   ensures[args] unch(alloc)
 
+// the unchecked increment (recovery, external placement): books exactly alloc on the queue and every ancestor, whatever
+// the quota says
+//@ func (sq *Queue) IncAllocatedResource(alloc *resources.Resource, isQuotaPreemptionEnabled bool)
+//@   props C12 C03
+//@   mode nopanic=off
+//@   assigns all Queue.allocatedResource, all Queue.quotaPreemptionStartTime
+//@   ensures[booked] forall q *Queue, t Key :: anc(sq, q) ==> rv(q.allocatedResource, t) == clamp64(old(rv(q.allocatedResource, t)) + rv(alloc, t))
+//@   ensures[frame] forall q *Queue :: !anc(sq, q) ==> q.allocatedResource == old(q.allocatedResource)
+
 //@ func (sq *Queue) DecAllocatedResource(alloc *resources.Resource) (err error)
 //@   props C02 C03
 //@   mode nopanic=off
@@ -229,14 +238,14 @@ package objects
 //@   assigns nothing
 
 //@ func (sn *Node) refreshAvailableResource()
-//@   props C01
+//@   props C01 C12
 //@   holds inv_own(sn)
 //@   assigns sn.availableResource
 //@   ensures inv_own(sn) && inv_L1(sn)
 //@   ensures[frame] sn.totalResource == old(sn.totalResource) && sn.allocatedResource == old(sn.allocatedResource) && sn.occupiedResource == old(sn.occupiedResource) && unch(sn.totalResource) && unch(sn.allocatedResource) && unch(sn.occupiedResource)
 
 //@ func (sn *Node) UpdateAllocatedResource(delta *resources.Resource)
-//@   props C01
+//@   props C01 C12
 //@   holds inv(sn)
 //@   holds sepN(sn, delta) && mag2(delta)
 //@   assigns sn.availableResource, sn.allocatedResource.Resources[*]
@@ -245,7 +254,7 @@ package objects
 //@   ensures[frame] forall t Key :: rv(sn.totalResource, t) == old(rv(sn.totalResource, t)) && rv(sn.occupiedResource, t) == old(rv(sn.occupiedResource, t))
 
 //@ func (sn *Node) addAllocationInternal(alloc *Allocation, force bool) (ok bool)
-//@   props C01 C03
+//@   props C01 C03 C12
 //@   holds inv(sn)
 //@   requires (alloc != nil ==> okR(alloc.allocatedResource) && sepN(sn, alloc.allocatedResource))
 //@   assigns sn.allocations[*], sn.occupiedResource, sn.allocatedResource.Resources[*], sn.availableResource.Resources[*]
@@ -278,7 +287,7 @@ package objects
 //@   ensures[arg] alloc != nil ==> unch(alloc.allocatedResource)
 
 //@ func (sn *Node) AddAllocation(alloc *Allocation)
-//@   props C01 C03
+//@   props C01 C03 C12
 //@   holds inv(sn)
 //@   requires (alloc != nil ==> okR(alloc.allocatedResource) && sepN(sn, alloc.allocatedResource))
 //@   assigns sn.allocations[*], sn.occupiedResource, sn.allocatedResource.Resources[*], sn.availableResource.Resources[*]
@@ -328,7 +337,7 @@ package objects
 //@   ensures[swapped] sn.allocations[replace.allocationKey] == replace && (allocationKey != replace.allocationKey ==> !(allocationKey in sn.allocations))
 
 //@ func (sn *Node) UpdateForeignAllocation(alloc *Allocation) (prev *Allocation)
-//@   props C01
+//@   props C01 C12
 //@   mode nopanic=off
 //@   holds inv(sn)
 //@   requires okR(alloc.allocatedResource) && sepN(sn, alloc.allocatedResource) && mag(alloc.allocatedResource)
@@ -700,7 +709,7 @@ package objects
 // a bound allocation is booked into exactly one of the two application totals (placeholder or real) and the same
 // resource is charged to the user
 //@ func (sa *Application) addAllocationInternal(allocType AllocationResultType, alloc *Allocation)
-//@   props C03 C05
+//@   props C03 C05 C12
 //@   mode nopanic=off
 //@   ensures[placeholder] alloc.placeholder ==> (forall t Key :: rv(sa.allocatedPlaceholder, t) == clamp64(old(rv(sa.allocatedPlaceholder, t)) + rv(alloc.allocatedResource, t))) && sa.allocatedResource == old(sa.allocatedResource)
 //@   ensures[real] !alloc.placeholder ==> (forall t Key :: rv(sa.allocatedResource, t) == clamp64(old(rv(sa.allocatedResource, t)) + rv(alloc.allocatedResource, t))) && sa.allocatedPlaceholder == old(sa.allocatedPlaceholder)
@@ -882,6 +891,19 @@ package objects
 //@   sweep
 //@   mode nopanic=off
 //@   at[nothingleft] call objects.Application.HandleApplicationEvent#1: assert arg1 == CompleteApplication && appZero(sa) && appState(sa) != "Completing" && appState(sa) != "Failing"
+//@   ensures[completes] old(len(sa.requests)) != 0 && appZero(sa) && old(appState(sa)) != "Completing" && old(appState(sa)) != "Failing" && noPlaceholders(sa) ==> ncalls(objects.Application.HandleApplicationEvent) == 1
+
+// the converse direction of the completion rule needs to know what "no placeholder allocations" means
+//@ spec noPlaceholders(a *Application) bool = forall k string :: (k in a.allocations) ==> !a.allocations[k].placeholder
+//@ func (sa *Application) getPlaceholderAllocations() (res []*Allocation)
+//@   props C10
+//@   mode nopanic=off
+//@   assigns nothing
+//@   ensures[none] sa != nil && len(res) == 0 ==> noPlaceholders(sa)
+//@   ensures[some] sa != nil && len(res) != 0 ==> (exists k string :: (k in sa.allocations) && sa.allocations[k].placeholder)
+//@   loop 1: invariant sa != nil
+//@   loop 1: invariant len(allocations) == 0 ==> (forall k string :: seen(k) ==> !sa.allocations[k].placeholder)
+//@   loop 1: invariant len(allocations) != 0 ==> (exists k string :: seen(k) && (k in sa.allocations) && sa.allocations[k].placeholder)
 
 // ================================================================ C13: SI input handling
 
@@ -1065,3 +1087,19 @@ package objects
 //@   props C19
 //@   hyp !vgt(a1, a2, b1, b2) && !vgt(b1, b2, a1, a2) && !vgt(b1, b2, c1, c2) && !vgt(c1, c2, b1, b2)
 //@   concl !vgt(a1, a2, c1, c2) && !vgt(c1, c2, a1, a2)
+
+// the working copies all victim selection runs on carry every ledger of the snapshot they were taken from - in
+// particular the resources already marked for preemption, without which a queue looks further above its guaranteed
+// share than it is
+//@ spec sameRes(a *resources.Resource, b *resources.Resource) bool = ((a == nil) <==> (b == nil)) && (forall t Key :: has(a, t) == has(b, t) && rv(a, t) == rv(b, t))
+//@ func (qps *QueuePreemptionSnapshot) Duplicate(copy map[string]*QueuePreemptionSnapshot) (out *QueuePreemptionSnapshot)
+//@   props C08
+//@   mode nopanic=off
+//@   requires forall k string :: (k in copy) ==> copy[k] != nil
+//@   assigns copy[*]
+//@   ensures[wf] forall k string :: (k in copy) ==> copy[k] != nil
+//@   ensures[stored] qps != nil ==> (qps.QueuePath in copy) && copy[qps.QueuePath] == out && out != nil
+//@   ensures[nil] qps == nil ==> out == nil
+//@   ensures[memo] qps != nil && old(qps.QueuePath in copy) ==> out == old(copy[qps.QueuePath])
+//@   ensures[fields] qps != nil && !old(qps.QueuePath in copy) ==> out != nil && fresh(out) && out.QueuePath == qps.QueuePath && out.Leaf == qps.Leaf && out.AskQueue == qps.AskQueue && ((out.Parent == nil) <==> (qps.Parent == nil))
+//@   ensures[ledgers] qps != nil && !old(qps.QueuePath in copy) ==> sameRes(out.AllocatedResource, qps.AllocatedResource) && sameRes(out.PreemptingResource, qps.PreemptingResource) && sameRes(out.MaxResource, qps.MaxResource) && sameRes(out.GuaranteedResource, qps.GuaranteedResource)
